@@ -115,7 +115,7 @@ Proof.
       unfold VA, expire_obj. cbn. repeat split; auto; try discriminate; try (intros; discriminate); intros X; congruence.
     - intros o. split; [intros []|]. intros [A [B E]]. destruct (Hk o) as [K1 _]. destruct (Hatt o E) as [_ E'].
       apply (g5 o). rewrite K1 in B. auto.
-    - intros o [].
+    - intros o Ho K. destruct (Hk o) as [K1 [K2 _]]. rewrite K2. rewrite K1 in K. auto.
     - intros o [].
     - split; constructor.
     - intros o k Ho K A B. destruct (Hk o) as [K1 [K2 K3]]. destruct (Hatt o A) as [_ A']. rewrite K1 in K. rewrite K2 in B.
@@ -211,11 +211,10 @@ Proof. intros. reflexivity. Qed.
 
 Lemma nested_final_core : forall st g gs' f p rest', Core st (g :: gs') -> stack st = f :: p :: rest' -> fstate f = ACTIVE ->
   is_clean st = true ->
-  (forall x, ks_find x (fks f) <> None -> ks_find x (fks p) = None) ->
   Core (nested_final st f p rest') gs' /\ fnested f = true /\
   (fconn f = true -> exists w r, saves st = (fid f, w) :: r).
 Proof.
-  intros st g gs' f p rest' C Hs Hf Hcl Hg. destruct C as [G Jh D Ch Em].
+  intros st g gs' f p rest' C Hs Hf Hcl. destruct C as [G Jh D Ch Em].
   pose proof Hcl as Hcl0. apply is_clean_spec in Hcl. destruct Hcl as [Hsn [Hsd Hmod]].
   unfold Chain in Ch. rewrite Hs, Hf in Ch. destruct Ch as [GC [R CG]].
   destruct gs' as [|gp gs'']; [destruct CG|]. cbn [ChainG] in CG. destruct CG as [GCp [L CG']].
@@ -264,64 +263,24 @@ Proof.
   - rewrite E8. intros X. discriminate.
 Qed.
 
-(* ------------------------------------------------------------------ guard g2 as a property of key-switch domains *)
-Definition kdom (l : list (nat * (Z * Z))) (x : nat) : Prop := ks_find x l <> None.
-(* [A] is disjoint from every domain of the list, and the domains are pairwise disjoint *)
-Fixpoint PD (A : nat -> Prop) (kss : list (list (nat * (Z * Z)))) : Prop :=
-  match kss with
-  | [] => True
-  | k :: r => (forall x, A x -> ~ kdom k x) /\ PD (fun x => A x \/ kdom k x) r
-  end.
-Lemma PD_mono : forall kss (A A' : nat -> Prop), (forall x, A' x -> A x) -> PD A kss -> PD A' kss.
-Proof.
-  induction kss as [|k r IH]; intros A A' H P; cbn in *; auto. destruct P as [P1 P2]. split.
-  - intros x Hx. apply P1. auto.
-  - eapply IH; [|exact P2]. intros x [X|X]; auto.
-Qed.
-Lemma PD_firstn : forall kss A n, PD A kss -> PD A (firstn n kss).
-Proof.
-  induction kss as [|k r IH]; intros A n P; destruct n; cbn in *; auto. destruct P as [P1 P2]. split; auto.
-Qed.
-
-(* an object of the identity map with an unflushed primary-key change *)
-Definition pend (st : sess) (x : nat) : Prop := oin (objs st x) = true /\ upd_sets_id (objs st x) = true.
-Definition hdA (st : sess) (x : nat) : Prop :=
-  match stack st with f :: _ => kdom (fks f) x | [] => False end \/ pend st x.
-
-Lemma clean_no_pend : forall st gs x, Core st gs -> is_clean st = true -> ~ pend st x.
-Proof.
-  intros st gs x C Hcl [H1 H2]. apply is_clean_spec in Hcl. destruct Hcl as [_ [_ Hm]].
-  destruct (g_in _ _ _ _ _ (c_good _ _ C) x H1) as [Hx _].
-  destruct (c_j _ _ C x Hx) as [_ [_ J3]]. destruct (J3 (Hm x Hx H1)) as [E _].
-  unfold upd_sets_id in H2. rewrite E in H2. discriminate.
-Qed.
-
-Lemma lists_fks : forall fs fs', map lists_of fs' = map lists_of fs -> map fks fs' = map fks fs.
-Proof.
-  induction fs as [|a fs IH]; intros [|b fs'] Q; try discriminate; auto.
-  cbn in Q. injection Q as E1 E2 E3 E4 E5 E6 E7 E8 E9. cbn. rewrite E4. f_equal. apply IH; auto.
-Qed.
-
+(* ------------------------------------------------------------------ commit of the innermost frame, in general *)
 (* what a successful SessionTransaction.commit of the innermost frame leaves *)
 Definition CommitDone (st : sess) (f : frame) (rest : list frame) (st' : sess) : Prop :=
   is_clean st' = true /\
   match rest with
   | [] => stack st' = []
   | p :: rest' => exists m rest2, stack st' = m :: rest2 /\ map lists_of rest2 = map lists_of rest' /\ length rest2 = length rest' /\
-                    fstate m = ACTIVE /\ fid m = fid p /\
-                    (forall x, kdom (fks m) x -> hdA st x \/ kdom (fks p) x) /\
-                    committed st' = committed st
+                    fstate m = ACTIVE /\ fid m = fid p /\ committed st' = committed st
   end.
 
 Lemma commit_head_core : forall st gs f rest r st', Core st gs -> stack st = f :: rest ->
-  PD (hdA st) (firstn 1 (map fks rest)) ->
   commit_head st = (r, st') -> r <> Unmodelled ->
   nobj st' = nobj st /\ handles st' = handles st /\ eoc st' = eoc st /\
   ((r <> Ok /\ Core st' gs /\ committed st' = committed st /\ ids st' = ids st /\
     map lists_of (tl (stack st')) = map lists_of (tl (stack st))) \/
    (r = Ok /\ exists gs', Core st' gs' /\ CommitDone st f rest st')).
 Proof.
-  intros st gs f rest r st' C Hs HP H Hr.
+  intros st gs f rest r st' C Hs H Hr.
   destruct (Core_head_state st gs f rest C Hs) as [Hf|Hf].
   2:{ unfold commit_head in H. rewrite Hs in H. unfold check_prereq in H. rewrite Hf in H. cbn in H.
       inversion H; subst. repeat split; auto. left. split; [discriminate|]. split; [exact C|]. repeat split; reflexivity. }
@@ -335,7 +294,6 @@ Proof.
   { unfold hd_state in Hh. rewrite Hs, Hs1 in Hh. discriminate. }
   assert (Hf1 : fstate f1 = ACTIVE) by (unfold hd_state in Hh; rewrite Hs, Hs1 in Hh; congruence).
   rewrite Hs in A7. cbn [tl] in A7.
-  unfold KsGrow in Kg. rewrite Hs, Hs1 in Kg.
   destruct (Core_shape s1 gs f1 rest1 C1 Hs1) as [g [gs' Eg]]. subst gs.
   destruct rest as [|p rest'].
   - (* the outermost transaction *)
@@ -350,182 +308,79 @@ Proof.
   - (* a savepoint *)
     destruct rest1 as [|p1 rest1']; [discriminate|].
     cbn [map] in A7. injection A7 as Q1 Q2 Q3 Q4 Q5 Q6 Q7 Q8 Q9.
-    assert (Hg : forall x, ks_find x (fks f1) <> None -> ks_find x (fks p1) = None).
-    { intros x Hx. cbn [map firstn PD] in HP. destruct HP as [HP _]. rewrite Q4.
-      destruct (ks_find x (fks p)) eqn:E; auto. exfalso. apply (HP x); [|unfold kdom; rewrite E; discriminate].
-      unfold hdA. rewrite Hs. destruct (Kg x Hx) as [K|K]; [left; exact K|right; exact K]. }
-    destruct (nested_final_core s1 g gs' f1 p1 rest1' C1 Hs1 Hf1 Cl Hg) as [CF [Hn1 Hsv]].
+    destruct (nested_final_core s1 g gs' f1 p1 rest1' C1 Hs1 Hf1 Cl) as [CF [Hn1 Hsv]].
     rewrite (commit_tail_nested s1 f1 p1 rest1' Hs1 Hn1 Hf1 Hsv) in H2. inversion H2; subst r st'.
     assert (E : nobj (nested_final s1 f1 p1 rest1') = nobj s1 /\ handles (nested_final s1 f1 p1 rest1') = handles s1 /\
                 eoc (nested_final s1 f1 p1 rest1') = eoc s1 /\ stack (nested_final s1 f1 p1 rest1') = merge_into p1 f1 :: rest1' /\
-                is_clean (nested_final s1 f1 p1 rest1') = is_clean s1).
+                is_clean (nested_final s1 f1 p1 rest1') = is_clean s1 /\ committed (nested_final s1 f1 p1 rest1') = committed s1).
     { unfold nested_final. destruct (fconn f1); cbn; repeat split; reflexivity. }
-    destruct E as (E1 & E2 & E3 & E4 & E5).
+    destruct E as (E1 & E2 & E3 & E4 & E5 & E6).
     split; [congruence|]. split; [congruence|]. split; [congruence|].
     right. split; [reflexivity|]. exists gs'. split; [exact CF|]. split; [congruence|].
     exists (merge_into p1 f1), rest1'. split; [exact E4|]. split; [exact Q9|].
     split; [apply (f_equal (@length _)) in Q9; rewrite !map_length in Q9; exact Q9|].
     split; [cbn; destruct C1 as [_ _ D _ _]; destruct D as [D1 _ _ _]; rewrite Hs1 in D1; cbn in D1;
             destruct D1 as [_ [_ [_ [_ F5]]]]; apply F5; left; reflexivity|].
-    split; [cbn; congruence|].
-    split; [|unfold nested_final; destruct (fconn f1); cbn; congruence].
-    intros x Hx. unfold kdom in Hx.
-    assert (Hk : ks_find x (fks (merge_into p1 f1)) = match ks_find x (fks f1) with Some e => Some e | None => ks_find x (fks p1) end).
-    { unfold merge_into. cbn. apply ks_find_fold.
-      destruct C1 as [_ _ _ Ch _]. unfold Chain in Ch. rewrite Hs1, Hf1 in Ch. destruct Ch as [_ [R _]]. apply (r_ksu _ _ _ _ _ _ _ R). }
-    rewrite Hk in Hx. destruct (ks_find x (fks f1)) eqn:E.
-    + left. unfold hdA. rewrite Hs. assert (X : ks_find x (fks f1) <> None) by (rewrite E; discriminate).
-      destruct (Kg x X) as [K|K]; [left; exact K|right; exact K].
-    + right. unfold kdom. rewrite <- Q4. exact Hx.
-Qed.
-
-Lemma PD_after_commit : forall st gs f p rest' st1 gs1 m rest2, Core st gs -> Core st1 gs1 -> stack st = f :: p :: rest' ->
-  PD (hdA st) (map fks (p :: rest')) -> is_clean st1 = true -> stack st1 = m :: rest2 -> map fks rest2 = map fks rest' ->
-  (forall x, kdom (fks m) x -> hdA st x \/ kdom (fks p) x) ->
-  PD (hdA st1) (map fks rest2).
-Proof.
-  intros st gs f p rest' st1 gs1 m rest2 C C1 Hs HP Hcl Hs1 Hk Hm.
-  cbn [map PD] in HP. destruct HP as [_ HP]. rewrite Hk. eapply PD_mono; [|exact HP].
-  intros x Hx. unfold hdA in Hx. rewrite Hs1 in Hx. destruct Hx as [Hx|Hx]; [apply Hm; exact Hx|].
-  exfalso. eapply clean_no_pend; eauto.
+    split; [cbn; congruence|congruence].
 Qed.
 
 (* Session.commit(): every frame, innermost first *)
-Lemma commit_all_core : forall fuel st gs r st', Core st gs -> PD (hdA st) (map fks (tl (stack st))) ->
+Lemma commit_all_core : forall fuel st gs r st', Core st gs ->
   length (stack st) < fuel -> commit_all fuel st = (r, st') -> r <> Unmodelled ->
   exists gs', Core st' gs' /\ (r = Ok -> stack st' = [] /\ is_clean st' = true).
 Proof.
-  induction fuel as [|fuel IH]; intros st gs r st' C HP Hl H Hr; [lia|].
+  induction fuel as [|fuel IH]; intros st gs r st' C Hl H Hr; [lia|].
   cbn [commit_all] in H. destruct (stack st) as [|f rest] eqn:Hs.
   { inversion H; subst. exists gs. split; [exact C|]. intros _. split; [exact Hs|]. exact (c_empty _ _ C Hs). }
-  cbn [tl] in HP.
   apply bind_inv in H. destruct H as [[s1 [H1 H2]]|[H1 Hn]].
-  - destruct (commit_head_core st gs f rest Ok s1 C Hs (PD_firstn _ _ 1 HP) H1) as (_ & _ & _ & [[X _]|[_ [gs1 [C1 [Cl1 CD]]]]]);
+  - destruct (commit_head_core st gs f rest Ok s1 C Hs H1) as (_ & _ & _ & [[X _]|[_ [gs1 [C1 [Cl1 CD]]]]]);
       [discriminate|congruence|].
     destruct rest as [|p rest'].
     + destruct fuel as [|fuel']; [cbn in Hl; lia|]. cbn [commit_all] in H2. rewrite CD in H2. inversion H2; subst.
       exists gs1. split; [exact C1|]. auto.
-    + destruct CD as (m & rest2 & S1 & K1 & L1 & M1 & I1 & D1 & _).
-      apply (IH s1 gs1 r st' C1); auto.
-      * rewrite S1. cbn [tl]. apply (PD_after_commit st gs f p rest' s1 gs1 m rest2); auto. apply lists_fks; exact K1.
-      * rewrite S1. cbn in *. lia.
-  - destruct (commit_head_core st gs f rest r st' C Hs (PD_firstn _ _ 1 HP) H1 Hr) as (_ & _ & _ & [[X [C1 _]]|[X _]]); [|congruence].
+    + destruct CD as (m & rest2 & S1 & K1 & L1 & M1 & I1 & _).
+      apply (IH s1 gs1 r st' C1); auto. rewrite S1. cbn in *. lia.
+  - destruct (commit_head_core st gs f rest r st' C Hs H1 Hr) as (_ & _ & _ & [[X [C1 _]]|[X _]]); [|congruence].
     exists gs. split; [exact C1|]. intros Y. congruence.
 Qed.
 
 (* handle.commit(): the frames above the handle's frame, innermost first, then the frame itself *)
-Lemma fup_head : forall n p r, exists X, frames_upto_parent n (p :: r) = p :: X.
-Proof. intros. cbn. destruct (Nat.eqb (fid p) n); eauto. Qed.
-
-Lemma fup_lists : forall n a b, map lists_of a = map lists_of b ->
-  map fks (frames_upto_parent n a) = map fks (frames_upto_parent n b).
-Proof.
-  intros n. induction a as [|x a IH]; intros [|y b] Q; try discriminate; auto.
-  cbn in Q. injection Q as E1 E2 E3 E4 E5 E6 E7 E8 E9. cbn [frames_upto_parent]. rewrite E6.
-  destruct (Nat.eqb (fid y) n).
-  - cbn [map]. rewrite E4. f_equal. rewrite <- !firstn_map. f_equal. apply lists_fks. exact E9.
-  - cbn [map]. rewrite E4. f_equal. apply IH. exact E9.
-Qed.
-
 Lemma commit_upto_core : forall fuel n st gs r st', Core st gs ->
-  PD (hdA st) (map fks (tl (frames_upto_parent n (stack st)))) ->
   commit_upto fuel n st = (r, st') -> r <> Unmodelled ->
   exists gs', Core st' gs' /\ (r = Ok -> is_clean st' = true) /\
     (committed st' = committed st \/ (r = Ok /\ stack st' = [])).
 Proof.
-  induction fuel as [|fuel IH]; intros n st gs r st' C HP H Hr; [inversion H; subst; congruence|].
+  induction fuel as [|fuel IH]; intros n st gs r st' C H Hr; [inversion H; subst; congruence|].
   cbn [commit_upto] in H. unfold head_is in H.
   destruct (stack st) as [|f rest] eqn:Hs.
   { (* no transaction: commit_head is outside the model *)
     apply bind_inv in H. unfold commit_head in H. rewrite Hs in H. destruct H as [[s1 [H1 _]]|[H1 _]]; inversion H1; subst; congruence. }
-  cbn [frames_upto_parent] in HP.
   destruct (Nat.eqb (fid f) n) eqn:En.
-  - cbn [tl] in HP. rewrite <- firstn_map in HP.
-    destruct (commit_head_core st gs f rest r st' C Hs HP H Hr) as (_ & _ & _ & [[X [C1 [K1 _]]]|[X [gs1 [C1 [Cl1 CD]]]]]).
+  - destruct (commit_head_core st gs f rest r st' C Hs H Hr) as (_ & _ & _ & [[X [C1 [K1 _]]]|[X [gs1 [C1 [Cl1 CD]]]]]).
     + exists gs. split; [exact C1|]. split; [intros Y; congruence|left; exact K1].
     + exists gs1. split; [exact C1|]. split; [auto|].
-      destruct rest as [|p rest']; [right; auto|]. destruct CD as (m & rest2 & _ & _ & _ & _ & _ & _ & K). left; exact K.
-  - cbn [tl] in HP.
-    assert (HP1 : PD (hdA st) (firstn 1 (map fks rest))).
-    { destruct rest as [|p rest']; [exact I|]. destruct (fup_head n p rest') as [X EX]. rewrite EX in HP.
-      cbn [map firstn PD] in *. destruct HP as [A _]. split; [exact A|exact I]. }
-    apply bind_inv in H. destruct H as [[s1 [H1 H2]]|[H1 Hn]].
-    + destruct (commit_head_core st gs f rest Ok s1 C Hs HP1 H1) as (_ & _ & _ & [[X _]|[_ [gs1 [C1 [Cl1 CD]]]]]);
+      destruct rest as [|p rest']; [right; auto|]. destruct CD as (m & rest2 & _ & _ & _ & _ & _ & K). left; exact K.
+  - apply bind_inv in H. destruct H as [[s1 [H1 H2]]|[H1 Hn]].
+    + destruct (commit_head_core st gs f rest Ok s1 C Hs H1) as (_ & _ & _ & [[X _]|[_ [gs1 [C1 [Cl1 CD]]]]]);
         [discriminate|congruence|].
       destruct rest as [|p rest'].
       * (* the outermost transaction was committed and the handle's frame was not found: outside the model *)
         destruct fuel; cbn [commit_upto] in H2; [inversion H2; subst; congruence|].
         unfold head_is in H2. rewrite CD in H2. apply bind_inv in H2. unfold commit_head in H2. rewrite CD in H2.
         destruct H2 as [[s2 [X _]]|[X _]]; inversion X; subst; congruence.
-      * destruct CD as (m & rest2 & S1 & K1 & L1 & M1 & I1 & D1 & Kc).
-        assert (Goal' : exists gs', Core st' gs' /\ (r = Ok -> is_clean st' = true) /\
-                          (committed st' = committed s1 \/ (r = Ok /\ stack st' = []))).
-        2:{ destruct Goal' as [gs2 [G1 [G2 [G3|G3]]]]; exists gs2; split; auto; split; auto. left. congruence. }
-        apply (IH n s1 gs1 r st' C1); auto.
-        rewrite S1. cbn [frames_upto_parent]. rewrite I1.
-        cbn [frames_upto_parent] in HP.
-        assert (Q : PD (hdA s1) (map fks (tl (p :: (if Nat.eqb (fid p) n then firstn 1 rest' else frames_upto_parent n rest'))))).
-        { cbn [tl]. destruct (Nat.eqb (fid p) n); cbn [map PD] in HP; destruct HP as [_ HP];
-            (eapply PD_mono; [|exact HP]); intros x Hx; unfold hdA in Hx; rewrite S1 in Hx;
-            (destruct Hx as [Hx|Hx]; [apply D1; exact Hx|exfalso; eapply clean_no_pend; eauto]). }
-        destruct (Nat.eqb (fid p) n); cbn [tl] in *.
-        -- rewrite <- firstn_map. rewrite (lists_fks _ _ K1). rewrite firstn_map. exact Q.
-        -- rewrite (fup_lists n rest2 rest' K1). exact Q.
-    + destruct (commit_head_core st gs f rest r st' C Hs HP1 H1 Hr) as (_ & _ & _ & [[X [C1 [K1 _]]]|[X _]]); [|congruence].
+      * destruct CD as (m & rest2 & S1 & K1 & L1 & M1 & I1 & Kc).
+        destruct (IH n s1 gs1 r st' C1 H2 Hr) as [gs2 [G1 [G2 [G3|G3]]]]; exists gs2; split; auto; split; auto.
+        left. congruence.
+    + destruct (commit_head_core st gs f rest r st' C Hs H1 Hr) as (_ & _ & _ & [[X [C1 [K1 _]]]|[X _]]); [|congruence].
       exists gs. split; [exact C1|]. split; [intros Y; congruence|left; exact K1].
 Qed.
 
-(* ------------------------------------------------------------------ the boolean guard g2 gives PD *)
-Lemma ks_find_in : forall x l, ks_find x l <> None <-> In x (map fst l).
-Proof.
-  intros x l. split.
-  - intros H. destruct (in_dec Nat.eq_dec x (map fst l)) as [I|N]; auto. exfalso. apply H. apply ks_find_notin. exact N.
-  - induction l as [|[a p] l IH]; cbn; [tauto|]. intros [E|E].
-    + subst. rewrite Nat.eqb_refl. discriminate.
-    + destruct (Nat.eqb a x); [discriminate|auto].
-Qed.
-
-Lemma PD_of_disjoint : forall (r : list frame) (A : nat -> Prop),
-  (forall x, A x -> forall q, In q r -> ~ kdom (fks q) x) -> disjoint_all (map ks_dom r) = true -> PD A (map fks r).
-Proof.
-  induction r as [|p r IH]; intros A HA HD; cbn [map PD]; auto.
-  cbn [map disjoint_all] in HD. apply andb_prop in HD. destruct HD as [HD1 HD2]. split.
-  - intros x Hx. apply (HA x Hx p). left; reflexivity.
-  - apply IH; auto. intros x [Hx|Hx] q Hq.
-    + apply (HA x Hx q). right; exact Hq.
-    + intros Hk. apply ks_find_in in Hx. apply ks_find_in in Hk.
-      rewrite forallb_forall in HD1. specialize (HD1 x Hx). apply negb_true_iff in HD1.
-      assert (X : existsb (mem x) (map ks_dom r) = true).
-      { apply existsb_exists. exists (ks_dom q). split; [apply in_map; exact Hq|apply mem_In; exact Hk]. }
-      congruence.
-Qed.
-
-Lemma guard_PD : forall st gs f r, Core st gs -> (exists rest, stack st = f :: rest) ->
-  disjoint_all ((ks_dom f ++ pending_switch st) :: map ks_dom r) = true -> PD (hdA st) (map fks r).
-Proof.
-  intros st gs f r C [rest Hs] H. cbn [disjoint_all] in H. apply andb_prop in H. destruct H as [H1 H2].
-  apply PD_of_disjoint; auto. intros x Hx q Hq Hk.
-  assert (Hin : In x (ks_dom f ++ pending_switch st)).
-  { unfold hdA in Hx. rewrite Hs in Hx. apply in_or_app. destruct Hx as [Hx|[X1 X2]].
-    - left. apply ks_find_in. exact Hx.
-    - right. unfold pending_switch. apply filter_In. split; [|rewrite X1, X2; reflexivity].
-      apply in_seq. destruct (g_in _ _ _ _ _ (c_good _ _ C) x X1) as [Y _]. cbn. lia. }
-  rewrite forallb_forall in H1. specialize (H1 x Hin). apply negb_true_iff in H1.
-  assert (X : existsb (mem x) (map ks_dom r) = true).
-  { apply existsb_exists. exists (ks_dom q). split; [apply in_map; exact Hq|apply mem_In; apply ks_find_in; exact Hk]. }
-  congruence.
-Qed.
-
-Lemma t_commit_core : forall st gs n r st', Core st gs -> g2_ok st n = true -> t_commit n st = (r, st') -> r <> Unmodelled ->
+Lemma t_commit_core : forall st gs n r st', Core st gs -> t_commit n st = (r, st') -> r <> Unmodelled ->
   exists gs', Core st' gs' /\ (r = Ok -> is_clean st' = true) /\
     (committed st' = committed st \/ (r = Ok /\ stack st' = [])).
 Proof.
-  intros st gs n r st' C Hg H Hr. unfold t_commit in H.
+  intros st gs n r st' C H Hr. unfold t_commit in H.
   destruct (find_frame n st) as [fr|] eqn:Ef; [|inversion H; subst; exists gs; split; [exact C|split; [intros X; discriminate|left; reflexivity]]].
-  assert (HP : PD (hdA st) (map fks (tl (frames_upto_parent n (stack st))))).
-  { unfold g2_ok in Hg. destruct (stack st) as [|f rest] eqn:Hs; [exact I|].
-    destruct (fup_head n f rest) as [X EX]. rewrite EX in *. cbn [tl].
-    rewrite <- Hs in EX. apply (guard_PD st gs f X C); eauto. }
   destruct (check_prereq fr M_commit); [inversion H; subst; exists gs; split; [exact C|split; [intros X; discriminate|left; reflexivity]]|].
   destruct (tstate_eqb (fstate fr) PREPARED).
   - eapply commit_upto_core; eauto.
